@@ -181,6 +181,7 @@ def drives(quick):
         dict(name="2term_smoothed_same_triangles", dev="bar", dev_kw=dict(smooth=40), cur={"source": 4.0, "drain": -4.0}, A=0.3, opts=dict(dt_init=1e-2, adaptive=False)),
         dict(name="3term_other_xi", dev="bar3", dev_kw=dict(xi=0.4, max_edge_length=1.25), cur={"source": 3.0, "drain": -1.0, "top": -2.0}, A=0.2, opts=dict(dt_init=1e-2, adaptive=False)),
     ]
+    d += [dict(name="3term_same_solver_solved_twice", dev="bar3", twice=True, cur={"source": 3.0, "drain": -1.0, "top": -2.0}, A=0.2, opts=dict(dt_init=1e-2, adaptive=False))]
     # "converted from the user's units": prefixes of the current unit and of the device's length unit that do not cancel
     d += [
         dict(name="units_nA_uT", dev="bar3", cur={"source": 700.0, "drain": -300.0, "top": -400.0}, A=300.0, opts=dict(dt_init=1e-2, adaptive=False, current_units="nA", field_units="uT")),
@@ -223,7 +224,18 @@ def run_level(ctx, stop_first=False):
         out = os.path.join(str(ctx.work), f"{dr['name']}.h5")
         opts = runs.options(solve_time=0.12, save_every=3, output_file=out, progress_interval=10**9, **dr["opts"])
         try:
-            sol = tdgl.solve(dev, opts, applied_vector_potential=dr["A"], terminal_currents=cur)
+            if dr.get("twice"):
+                # the same TDGLSolver object solved a second time: the frames of the SECOND run are checked
+                from tdgl.solver.solver import TDGLSolver
+
+                sv = TDGLSolver(device=dev, options=opts, applied_vector_potential=dr["A"], terminal_currents=cur)
+                sv.solve()
+                if os.path.exists(out):
+                    os.remove(out)
+                sol = sv.solve()
+                ctx.count("second_solve_of_one_solver")
+            else:
+                sol = tdgl.solve(dev, opts, applied_vector_potential=dr["A"], terminal_currents=cur)
         except RuntimeError as e:
             # a well-posed problem of the zoo that runs on the unchanged tree: a run that dies leaves no recorded
             # step at which the balance could hold
